@@ -41,6 +41,23 @@ class RandEnv(T.EvalEnv):
         self.memo = {}
         self.dimv = dims or {}
         self.default = self._default
+        self._in_bound = False
+        self._bcache = {}
+
+    def bound_value(self, name, which, f, args):
+        """numeric value of a stated bound of array `name` at index `args`; a bound that does not depend on the index
+        (a scalar floor) is evaluated once per sample point"""
+        ck = (name, which)
+        c = self._bcache.get(ck)
+        if c is None:
+            probe = [T.fresh("q") for _ in args]
+            pn = {T.symname(q) for q in probe}
+            b = P(f(*probe))
+            c = ("const", T.evalf(b, self)) if not (b.syms & pn) else ("fn", None)
+            self._bcache[ck] = c
+        if c[0] == "const":
+            return c[1]
+        return T.evalf(P(f(*[Poly.const(a) for a in args])), self)
 
     def _default(self, kind, name, args):
         key = (kind, name, args)
@@ -74,6 +91,31 @@ class RandEnv(T.EvalEnv):
             if name in getattr(F, "samplers", {}):
                 v = self.memo[key] = F.samplers[name](args, self)
                 return v
+            lo_f, up_f = getattr(F, "lower", {}).get(name), getattr(F, "upper", {}).get(name)
+            if (lo_f is not None or up_f is not None) and not isint and not self._in_bound:
+                # an array with a stated bound (variances >= floors, ratios <= 1): sample AT the bound sometimes, else beyond it
+                self._in_bound = True
+                try:
+                    lo = self.bound_value(name, "lo", lo_f, args) if lo_f is not None else None
+                    up = self.bound_value(name, "up", up_f, args) if up_f is not None else None
+                except (TypeError, KeyError, ZeroDivisionError, ValueError, OverflowError):
+                    lo = up = None
+                finally:
+                    self._in_bound = False
+                if lo is not None or up is not None:
+                    strict = name in F.pos_apps
+                    if lo is not None and up is not None and up >= lo:
+                        v = lo if (self.rng.random() < 0.25 and not (strict and lo <= 0)) else self.rng.uniform(lo, up)
+                    elif lo is not None:
+                        step = float(self.rng.choice([1, 2])) if self.grid else self.rng.uniform(0.0, 2.0)
+                        v = lo if (self.rng.random() < 0.25 and not (strict and lo <= 0)) else lo + step
+                    else:
+                        step = float(self.rng.choice([1, 2])) if self.grid else self.rng.uniform(0.0, 2.0)
+                        v = up if self.rng.random() < 0.25 else up - step
+                    if strict and v <= 0:
+                        v = self.rng.uniform(0.3, 2.0)
+                    self.memo[key] = v
+                    return v
             if self.grid and not isint and name not in getattr(F, "int_apps", {}):
                 v = float(self.rng.choice([1, 2] if name in F.pos_apps else ([0, 1, 2] if name in F.nonneg_apps else [-1, 0, 1, 2])))
             elif name in F.pos_apps:
@@ -90,19 +132,101 @@ class RandEnv(T.EvalEnv):
         return v
 
 
+def _cond_holds(c, env):
+    k = c.kind
+    if k == "cmp" and c.args[0] in ("==0", "!=0"):
+        d = c.args[1]
+        v = T.evalf(d, env)
+        scale = 1.0
+        for m, co in d.terms:
+            try:
+                scale = max(scale, abs(T.evalf(Poly({m: co}), env)))
+            except Exception:
+                pass
+        z = abs(v) <= 1e-9 * scale
+        return z if c.args[0] == "==0" else not z
+    if k == "and":
+        return all(_cond_holds(a, env) for a in c.args)
+    if k == "or":
+        return any(_cond_holds(a, env) for a in c.args)
+    if k == "not":
+        return not _cond_holds(c.args[0], env)
+    return bool(T.evalf(c, env))
+
+
+def presolve_equalities(F, env):
+    """an equality hypothesis that is linear in a bare symbol not occurring elsewhere in it (Σ_c n_c == t) is met by
+    construction: the symbol is DEFINED by the rest (random sampling would never hit it)"""
+    for c in getattr(F, "conds", ()):
+        c = C(c)
+        if c.kind != "cmp" or c.args[0] != "==0":
+            continue
+        d = c.args[1]
+        for m, co in d.terms:
+            if len(m) == 1 and m[0][1] == 1 and m[0][0].kind == "sym":
+                a = m[0][0]
+                name = a.args[0]
+                rest = d - Poly({m: co})
+                if name in rest.syms or name in env.syms or any(k[0] == "sym" and k[1] == name for k in env.memo) or "#" in name:
+                    continue
+                try:
+                    env.syms[name] = -T.evalf(rest, env) / float(co)
+                except Exception:
+                    pass
+                break
+
+
+def hypotheses_hold(F, env, conds_checked=False):
+    """does the sampled point satisfy the hypotheses (ground conditions incl. the path condition, bounds on the array
+    elements sampled so far)?  None: not evaluable (then the point is not used as a witness)"""
+    try:
+        for c in (() if conds_checked else getattr(F, "conds", ())):
+            if not _cond_holds(C(c), env):
+                return False
+        for (kind, name, args), v in list(env.memo.items()):
+            if kind != "app":
+                continue
+            for table, ge in ((getattr(F, "lower", {}), True), (getattr(F, "upper", {}), False)):
+                f = table.get(name)
+                if f is None:
+                    continue
+                try:
+                    b = env.bound_value(name, "lo" if ge else "up", f, args) if hasattr(env, "bound_value") else T.evalf(P(f(*[Poly.const(a) for a in args])), env)
+                except TypeError:
+                    continue
+                if (ge and v < b - 1e-12) or (not ge and v > b + 1e-12):
+                    return False
+    except (ZeroDivisionError, OverflowError, ValueError, KeyError, TypeError):
+        return None
+    return True
+
+
 def numeric_differs(a, b, F, trials=8, seed=0):
-    """evaluate both terms at random points. returns ('differs', witness) |
+    """evaluate both terms at random points THAT SATISFY THE HYPOTHESES. returns ('differs', witness) |
     ('same', None) | ('noeval', reason)"""
     a, b = P(a), P(b)
     free = sorted((a.syms | b.syms))
     same, why = 0, None
-    for t in range(trials + 6):
-        # the last six trials draw every real quantity from a small integer grid (ties between distances, equal counts, ...)
-        env = RandEnv(seed * 1000 + t, F, grid=(t >= trials))
+    accepted, t = 0, -1
+    t_start = time.time()
+    while accepted < trials + 6 and t < 6 * (trials + 6) and (time.time() - t_start < 25.0 or t < 3):
+        t += 1
+        # the last six accepted trials draw every real quantity from a small integer grid (ties between distances, equal counts, ...)
+        env = RandEnv(seed * 1000 + t, F, grid=(accepted >= trials))
         # free index symbols take small in-range values
         for n in free:
             if "#" in n and n not in env.memo:
                 env.syms[n] = t % 2
+        presolve_equalities(F, env)
+        # the ground hypotheses first (cheap): a point that violates the path condition is not worth evaluating the terms at
+        checked = False
+        try:
+            if any(not _cond_holds(C(c), env) for c in getattr(F, "conds", ())):
+                why = "no sampled point satisfied the hypotheses"
+                continue
+            checked = True
+        except (ZeroDivisionError, OverflowError, ValueError, KeyError, TypeError):
+            pass
         try:
             va, vb = T.evalf(a, env), T.evalf(b, env)
         except (ZeroDivisionError, OverflowError, ValueError) as e:
@@ -110,6 +234,11 @@ def numeric_differs(a, b, F, trials=8, seed=0):
             continue
         except (KeyError, TypeError) as e:
             return "noeval", "%s: %s" % (type(e).__name__, e)
+        hold = hypotheses_hold(F, env, conds_checked=checked)
+        if hold is not True:
+            why = "no sampled point satisfied the hypotheses" if hold is False else "hypotheses not evaluable at the sampled points"
+            continue
+        accepted += 1
         if math.isnan(va) or math.isnan(vb):
             continue
         if abs(va - vb) > 1e-7 * (1 + abs(va) + abs(vb)):
@@ -167,6 +296,8 @@ def compare(got, exp, F, name, out, hyps=()):
         for k in keys:
             if k.startswith("__ghost"):
                 continue
+            if k in getattr(got, "cf", {}) or k in getattr(exp, "cf", {}):
+                continue        # a cache field settled by Interp.complete_fixture: judged by contract.cache_coherence, not by equality
             if k not in got.fields or k not in exp.fields:
                 if k in got.fields and k in getattr(got, "cf", {}):
                     continue        # a cache field completed by Interp.complete_fixture: judged by contract.cache_coherence
@@ -182,6 +313,10 @@ def compare(got, exp, F, name, out, hyps=()):
                     continue
                 out.append(Clause("%s.%s" % (name, k), "refuted", "normaliser",
                                   "field %s only on the %s side" % (k, "spec" if k in exp.fields else "code")))
+                continue
+            if got.fields[k] is None and exp.fields[k] is not None and k in getattr(exp, "lazy_fields", ()):
+                # a cache the contract allows to be empty (its getter fills it lazily from the current state)
+                out.append(Clause("%s.%s" % (name, k), "discharged", "normaliser", "cache left empty: filled lazily by its getter"))
                 continue
             compare(got.fields[k], exp.fields[k], F, "%s.%s" % (name, k), out, hyps)
         return
@@ -269,6 +404,10 @@ def descend_injective(g, e):
 
 def compare_terms(g, e, F, name, out, hyps=(), t0=None):
     t0 = t0 or time.time()
+    if F.conds and not T.equal(g, e):
+        mp = smt.equality_substitutions(F)
+        if mp and ((g.syms | e.syms) & set(mp)):
+            g, e = T.subst(g, mp), T.subst(e, mp)
     if T.equal(g, e):
         smt.STATS["normaliser"] += 1
         out.append(Clause(name, "discharged", "normaliser", secs=time.time() - t0))
